@@ -763,3 +763,119 @@ Proof.
   revert H. generalize t_empty. induction ss as [|[k v] ss IH]; intros t [Hw He]; [split; assumption|].
   cbn [fold_left fst snd]. apply IH. split; [apply t_insert_wfb; exact Hw|apply t_insert_exact; exact He].
 Qed.
+
+(* ============================================================================================ *)
+(* Inexact trees (total >= self + children, as Clone's independent flooring produces): what the  *)
+(* codec preserves and what it does not (known finding scaled-totals-reloaded)                   *)
+
+Lemma strip_prune0_sub : forall t, t_subb t = true -> t_strip0 (t_prune 0 t) = t_strip0 t.
+Proof.
+  induction t as [n s tot ch IH] using tnode_ind'. intros He.
+  cbn [t_subb] in He. apply andb_true_iff in He. destruct He as [He Hc]. apply N.leb_le in He.
+  cbn [t_prune]. rewrite !t_strip0_eq. f_equal. destruct (N.ltb_spec 0 tot) as [Hp|Hz].
+  - clear He. induction ch as [|c ch IHc]; [reflexivity|].
+    cbn [map strip_go forallb] in *. apply andb_true_iff in Hc. destruct Hc as [Hc1 Hc2].
+    inversion IH; subst. rewrite prune_total. destruct (t_total c =? 0); [auto|]. f_equal; auto.
+  - assert (Hz' : ch_total ch = 0) by lia. apply ch_total_zero in Hz'. clear -Hz'.
+    induction Hz' as [|c ch H _ IHc]; [reflexivity|]. cbn [strip_go]. rewrite H. cbn. exact IHc.
+Qed.
+
+(* the shape with names and self values: totals erased *)
+Fixpoint t_untotal (t : tnode) : tnode :=
+  match t with TNode n s _ ch => TNode n s 0 (map t_untotal ch) end.
+
+Lemma untotal_retotal : forall t, t_untotal (t_retotal t) = t_untotal t.
+Proof.
+  induction t as [n s tot ch IH] using tnode_ind'. cbn [t_retotal t_untotal]. f_equal.
+  rewrite map_map. apply map_ext_in. rewrite Forall_forall in IH. auto.
+Qed.
+
+(* under t_sub every self value in a subtree is bounded by the subtree's total *)
+Lemma den_le_total : forall t, t_subb t = true -> forall prefix x, In x (t_den_aux prefix t) -> snd x <= t_total t.
+Proof.
+  induction t as [n s tot ch IH] using tnode_ind'. intros Hsub prefix x Hx.
+  cbn [t_subb] in Hsub. apply andb_true_iff in Hsub. destruct Hsub as [Hle Hc]. apply N.leb_le in Hle.
+  cbn [t_den_aux t_total] in *. destruct Hx as [<-|Hx]; [cbn; lia|].
+  apply in_flat_map in Hx. destruct Hx as [c [Hc1 Hx]].
+  rewrite Forall_forall in IH. rewrite forallb_forall in Hc.
+  specialize (IH c Hc1 (Hc c Hc1) _ x Hx).
+  assert (t_total c <= ch_total ch).
+  { clear -Hc1. induction ch as [|c0 ch IHc]; [destruct Hc1|]. rewrite ch_total_cons. destruct Hc1 as [->|H]; [lia|specialize (IHc H); lia]. }
+  lia.
+Qed.
+
+(* every stack that carries samples survives the codec below the cap, with its self value *)
+Lemma den_nonzero_kept : forall t, t_subb t = true -> forall prefix x,
+  In x (t_den_aux prefix t) -> snd x <> 0 -> In x (t_den_aux prefix (R 0 t)).
+Proof.
+  induction t as [n s tot ch IH] using tnode_ind'. intros Hsub prefix x Hx Hnz.
+  pose proof (den_le_total _ Hsub prefix x Hx) as Hle. cbn [t_total] in Hle.
+  cbn [t_subb] in Hsub. apply andb_true_iff in Hsub. destruct Hsub as [_ Hc].
+  rewrite R_eq. replace (0 <? tot) with true by lia.
+  cbn [t_den_aux] in *. destruct Hx as [Hx|Hx]; [left; exact Hx|right].
+  apply in_flat_map in Hx. destruct Hx as [c [Hc1 Hx]].
+  apply in_flat_map. exists (R 0 c). split; [apply in_map; exact Hc1|].
+  rewrite R_name. rewrite Forall_forall in IH. rewrite forallb_forall in Hc. apply IH; auto.
+Qed.
+
+Theorem inexact_preserved : forall cap t d bs d' ops,
+  (1 <= cap)%nat -> t_wfb t = true -> t_subb t = true -> t_fitsb t = true ->
+  tr_weight d + names_weight 0 t + ops_weight ops < two55 ->
+  (t_size t <= cap)%nat ->
+  tc_serialize cap t d = (bs, d') ->
+  let dec := t_retotal (t_prune 0 t) in
+  tc_deserialize (fold_left d_step ops d') bs = Some dec /\
+  tc_deserialize_nodict (tc_serialize_nodict cap t) = Some dec /\
+  t_untotal dec = t_untotal (t_prune 0 t) /\
+  t_strip0 (t_prune 0 t) = t_strip0 t /\
+  (forall x, In x (t_den t) -> snd x <> 0 -> In x (t_den dec)) /\
+  (forall x, In x (t_den dec) -> In x (t_den t)) /\
+  t_exactb dec = true.
+Proof.
+  intros cap t d bs d' ops _ Hwf Hsub Hfit Hb Hsz Hs dec.
+  pose proof (t_minval_fits cap t Hsz) as Hm.
+  split. { unfold dec. change (t_retotal (t_prune 0 t)) with (R 0 t). rewrite <- Hm. eapply dict_roundtrip; eauto. rewrite Hm. exact Hb. }
+  split. { rewrite nodict_roundtrip by assumption. rewrite Hm. reflexivity. }
+  split; [apply untotal_retotal|].
+  split; [apply strip_prune0_sub; exact Hsub|].
+  split; [intros x; apply den_nonzero_kept; exact Hsub|].
+  split; [intros x; apply den_R_incl|apply t_retotal_exact].
+Qed.
+
+(* the full statement of C04_lossless without t_exactb is false of the model (and of the code) *)
+Theorem lossless_inexact_refuted :
+  exists cap t, (1 <= cap)%nat /\ t_wfb t = true /\ t_subb t = true /\ t_fitsb t = true /\ (t_size t < cap)%nat /\
+    ~ (exists t', tc_deserialize_nodict (tc_serialize_nodict cap t) = Some t' /\ t_strip0 t' = t_strip0 t).
+Proof.
+  exists 1024%nat, (TNode [] 0 3 [TNode [97] 1 1 []; TNode [109; 97; 105; 110] 0 1 [TNode [109; 97; 105; 110] 1 1 []]]).
+  repeat split; try (vm_compute; reflexivity); try (vm_compute; lia).
+  intros [t' [H1 H2]]. vm_compute in H1. injection H1 as <-. vm_compute in H2. discriminate.
+Qed.
+
+(* ---- standalone export for C02: the dictionary side of a reload ---- *)
+(* a tree serialized against dictionary d (which becomes d1) and deserialized against ANY later state of the same
+   dictionary (more puts, save/reload events) decodes to the same tree as against d1 itself *)
+Lemma tree_codec_dict_stable : forall cap t d bs d1 ops,
+  t_wfb t = true -> t_fitsb t = true ->
+  tr_weight d + names_weight (t_minval cap t) t + ops_weight ops < two55 ->
+  tc_serialize cap t d = (bs, d1) ->
+  tc_deserialize (fold_left d_step ops d1) bs = tc_deserialize d1 bs /\
+  tc_deserialize d1 bs = Some (t_retotal (t_prune (t_minval cap t) t)).
+Proof.
+  intros cap t d bs d1 ops Hwf Hfit Hb Hs.
+  pose proof (dict_roundtrip cap t d bs d1 ops Hwf Hfit Hb Hs) as H1.
+  assert (Hb0 : tr_weight d + names_weight (t_minval cap t) t + ops_weight [] < two55) by (cbn [ops_weight fold_right]; lia).
+  pose proof (dict_roundtrip cap t d bs d1 [] Hwf Hfit Hb0 Hs) as H0. cbn [fold_left] in H0.
+  split; [rewrite H1, H0; reflexivity|exact H0].
+Qed.
+
+(* below the cap, what a save + load of a stored tree yields (any t_wfb tree; t_prune 0 t itself when exact) *)
+Lemma tree_reload_below_cap : forall cap t d bs d1 ops,
+  t_wfb t = true -> t_fitsb t = true -> (t_size t <= cap)%nat ->
+  tr_weight d + names_weight 0 t + ops_weight ops < two55 ->
+  tc_serialize cap t d = (bs, d1) ->
+  tc_deserialize (fold_left d_step ops d1) bs = Some (t_retotal (t_prune 0 t)).
+Proof.
+  intros cap t d bs d1 ops Hwf Hfit Hsz Hb Hs. pose proof (t_minval_fits cap t Hsz) as Hm.
+  rewrite <- Hm. eapply dict_roundtrip; eauto. rewrite Hm. exact Hb.
+Qed.
